@@ -258,7 +258,9 @@ pub fn gen_random(seed: u64, idx: u64) -> Plan {
             if k > 0 {
                 c.steps.push(Step::Send { data: Blob(hello[..k].to_vec()), completes: None });
             }
-            c.steps.push(Step::Sleep { ms: r.range(0, 30) });
+            // it leaves at once, or stalls for minutes first: neither may
+            // keep a client that arrives meanwhile from being served
+            c.steps.push(Step::Sleep { ms: if r.chance(1, 2) { r.range(0, 30) } else { r.range(70_000, 150_000) } });
             c.steps.push(if r.chance(1, 2) { Step::Close } else { Step::Reset });
             conns.push(c);
             let mut b = blank_conn(1901);
